@@ -386,13 +386,13 @@ def handle (toks : List String) : String :=
   | "write2" :: rest =>
     match ints rest with
     | some [nr, nc, br0, brlen, bc0, bclen, rlo, rhi, clo, chi] =>
-      match writeWindow (α := Int) nr (fun _ => -1) br0 brlen (fun i => i) rlo rhi,
-            writeWindow (α := Int) nc (fun _ => -1) bc0 bclen (fun i => i) clo chi with
-      | some fr, some fc =>
+      match writeWindow2 (α := Int × Int) nr nc (fun _ _ => (-1, -1)) br0 brlen bc0 bclen (fun i j => (i, j))
+              rlo rhi clo chi with
+      | some f =>
         "ok " ++ ";".intercalate ((List.range nr.toNat).map fun (r : Nat) =>
           " ".intercalate ((List.range nc.toNat).map fun (c : Nat) =>
-            if fr r < 0 || fc c < 0 then "_" else s!"{fr r}.{fc c}"))
-      | _, _ => "err"
+            if (f r c).1 < 0 then "_" else s!"{(f r c).1}.{(f r c).2}"))
+      | none => "err"
     | _ => "bad-args"
   | "orient" :: rest =>
     match ints rest with
